@@ -122,10 +122,27 @@ def encode(spec, workdir=None):
         return ("construct-error", classify_exc(e), str(e)[:300])
     try:
         with contextlib.redirect_stdout(io.StringIO()):
-            s = doc.rtf_encode()
+            s = _encode_with_deadline(doc)
     except Exception as e:  # noqa: BLE001
         return ("encode-error", classify_exc(e), str(e)[:300])
     return ("ok", s)
+
+
+ENCODE_DEADLINE_S = 180
+
+
+def _encode_with_deadline(doc):
+    """rtf_encode() under a deadline where one can be armed (main thread of the process): an encoder that does not
+    return is reported as an encode error of class `Hang`, which every check treats like any other refusal of an
+    accepted configuration — instead of a check that never ends"""
+    import threading
+
+    from . import common
+
+    if threading.current_thread() is not threading.main_thread():
+        return doc.rtf_encode()
+    with common.deadline(ENCODE_DEADLINE_S):
+        return doc.rtf_encode()
 
 
 # ----------------------------------------------------------------------------- generators
